@@ -18,6 +18,7 @@ func init() {
 		Explanation: "Statistics conservation, structural part. Decided: (D1) swap-then-persist: the hourly flush swaps the current unit and persists the swapped-out one inside one hold of both locks; what is persisted is exactly the serialisation of that unit (not merged with or replaced by anything read back), under that unit's own id; updates add to the current unit only under the unit lock; " +
 			"(D2) counted exactly once: adding an entry increments the total and exactly one result slot, once, outside any loop; an entry is added at most once per update and only after validation bounded its result code to the slots that exist; (D3) persist on shutdown, reload on start: a clean close persists the current unit's serialisation under its id, and start-up reloads the unit with the very id it gives the new current unit; " +
 			"(D4) the window is assembled on every read from the database and the live current unit — never from a cache kept across flushes. " +
+			"(D5) the rollover transaction is rolled back only on an edge where an operation returned an error, and the retention handed to the rollover is derived from state that every writer of the retention limit updates. " +
 			"Not decided: hour/window arithmetic (id - limit, first id, gaps of many hours), 'daily never exceeds totals', top-N merging.",
 		RuleText:    "Lock dominance, value identity and referrer sets on SSA, provenance of the assembled window, increment counting.",
 		Assumptions: []string{"bbolt transactions are atomic", "encoding/gob round-trips unitDB"},
